@@ -347,6 +347,20 @@ pub fn action(a: &Value) -> String {
         "rencol" => format!("ALTER TABLE {} RENAME COLUMN {} TO {}", s(a, "t"), s(a, "c"), s(a, "to")),
         "addcheck" => format!("ALTER TABLE {} ADD CONSTRAINT {} CHECK ({})", s(a, "t"), s(a, "n"), expr(&a["e"])),
         "adduq" => format!("ALTER TABLE {} ADD CONSTRAINT {} UNIQUE ({})", s(a, "t"), s(a, "n"), names(a, "cols")),
+        "addfk" => {
+            let f = &a["fk"];
+            let mut t = format!(
+                "ALTER TABLE {} ADD CONSTRAINT {} FOREIGN KEY ({}) REFERENCES {} ({})",
+                s(a, "t"), s(a, "n"), names(f, "cols"), s(f, "rt"), names(f, "rcols")
+            );
+            if !s(f, "ondel").is_empty() && s(f, "ondel") != "noaction" {
+                t += &format!(" ON DELETE {}", fk_action(s(f, "ondel")));
+            }
+            if !s(f, "onupd").is_empty() && s(f, "onupd") != "noaction" {
+                t += &format!(" ON UPDATE {}", fk_action(s(f, "onupd")));
+            }
+            t
+        }
         "dropcons" => format!("ALTER TABLE {} DROP CONSTRAINT {}", s(a, "t"), s(a, "n")),
         "crole" => format!("CREATE ROLE {}", s(a, "r")),
         "grant" => format!("GRANT {} ON {} TO {}", s(a, "p").to_uppercase(), s(a, "t"), s(a, "r")),
